@@ -30,6 +30,44 @@ class World:
     pass
 
 
+#: underliers with a second scripted buffer, including the harness' user subclasses
+TWO_FACTOR = dict(market.TWO_FACTOR, heston_user="variance")
+BASE_UL = {"brownian_ts": "brownian", "heston_user": "heston"}
+_USER_CLASSES = {}
+
+
+def user_primary(ul, dtype, cost, dt):
+    """USER SUBCLASSES of the built-in primaries that override documented, overridable properties:
+    whatever pfhedge computes from an underlier must go through these properties, not through the
+    built-in class it happens to derive from.
+
+    brownian_ts   BrownianStock with a volatility term structure: volatility = sigma (1 + t/4) at step t,
+                  variance = volatility^2  (dyadic for sigma = 1/4)
+    heston_user   HestonStock with a floored volatility: sqrt(max(variance, 0)) + 1/8"""
+    import pfhedge.instruments as I
+    if not _USER_CLASSES:
+        class TermStructureStock(I.BrownianStock):
+            @property
+            def volatility(self):
+                spot = self.get_buffer("spot")
+                t = torch.arange(spot.size(-1), dtype=spot.dtype, device=spot.device)
+                return (self.sigma * (1 + 0.25 * t)).expand_as(spot).clone()
+
+            @property
+            def variance(self):
+                return self.volatility.square()
+
+        class FlooredVolHeston(I.HestonStock):
+            @property
+            def volatility(self):
+                return self.get_buffer("variance").clamp(min=0.0).sqrt() + 0.125
+
+        _USER_CLASSES.update(brownian_ts=TermStructureStock, heston_user=FlooredVolHeston)
+    if ul == "brownian_ts":
+        return _USER_CLASSES[ul](sigma=SIGMA, cost=cost, dt=dt, dtype=dtype)
+    return _USER_CLASSES[ul](cost=cost, dt=dt, dtype=dtype)
+
+
 def tol(dtype):
     """Slack for quantities whose arithmetic is NOT exact (logarithms, Black-Scholes kernels, matrix
     products over non-dyadic numbers).  Two evaluations of the same row-wise function on the same
@@ -155,7 +193,7 @@ def build_world(w):
     T = w["T"]
     ul = w["ul"]
     dt = DTS[w.get("dt", "dyadic")]
-    two = ul in market.TWO_FACTOR
+    two = ul in TWO_FACTOR
     if w.get("period"):
         # long time grids (T in the hundreds): the complete tree is out of reach, so the path set is the
         # complete set of PERIODIC paths of period k over the alphabet (all |A|^k of them), tiled to T
@@ -174,8 +212,11 @@ def build_world(w):
         spot = spot[orig]
         second = None if second is None else second[orig]
     kw = {"sigma": SIGMA} if ul in ("brownian", "merton", "kou") else {}
-    p = market.primary(ul, dtype=dtype, cost=w.get("cost", 0.0), dt=dt, **kw)
-    market.script_primary(p, ul, spot, second)
+    if ul in BASE_UL:
+        p = user_primary(ul, dtype, w.get("cost", 0.0), dt)
+    else:
+        p = market.primary(ul, dtype=dtype, cost=w.get("cost", 0.0), dt=dt, **kw)
+    market.script_primary(p, BASE_UL.get(ul, ul), spot, second)
     kind = w.get("kind", "european")
     dkw = {}
     if kind in market.OPTION_KINDS:
@@ -229,7 +270,7 @@ def build_world(w):
 
 def world_ok(w):
     """Is the combination constructible / meaningful?"""
-    if w.get("listed") == "varswap" and (w["ul"] not in market.TWO_FACTOR and w["ul"] not in ("brownian", "merton", "kou")):
+    if w.get("listed") == "varswap" and (w["ul"] not in TWO_FACTOR and w["ul"] not in ("brownian", "merton", "kou", "brownian_ts")):
         return False
     if w.get("listed") == "bs" and (w.get("kind") not in market.OPTION_KINDS or w["ul"] in NO_VOL_UL):
         return False
@@ -523,6 +564,34 @@ def make_hedger(m, world, seed=0, record=False):
     kit.specs = specs
     kit.features = [make_feature(s, world, seed) for s in specs]
     kit.hedger = Hedger(model, list(kit.features))
+    if m.get("module_mode") == "eval":
+        kit.hedger.eval()            # the mode price() is typically called in, and the one fit() leaves behind
+    elif m.get("module_mode") == "train":
+        kit.hedger.train()
+    hook = m.get("user_hook")
+    if hook == "lot":
+        # a user's forward hook registered after construction: round positions to lots of 1/16
+        # (exact on dyadic outputs)
+        kit.hedger.register_forward_hook(lambda mod, inp, out: (out * 16).round() / 16)
+    elif hook == "limit":
+        # ... or a position limit
+        kit.hedger.register_forward_hook(lambda mod, inp, out: out.clamp(min=-0.5, max=0.5))
     kit.exact = exact
     kit.state_dependent = any(depends_on_state(s) for s in specs)
     return kit
+
+
+def cross_hedge(world, short, kind="primary"):
+    """A hedging instrument on ANOTHER stock whose series is ``short`` steps shorter than the series of
+    the derivative's underlier (same paths axis): its prices are a dyadic function of the first
+    T - short prices of the underlier.  kind: 'primary' (the other stock itself) or 'listed' (a listed
+    European option on it, dyadic pricer)."""
+    import pfhedge.instruments as I
+    Th = world.T - short
+    other = market.primary("brownian", dtype=world.dtype, cost=1 / 64, dt=world.env["dt"], sigma=SIGMA)
+    market.set_buffers(other, spot=(world.spot[:, :Th] * 2 - 0.5).clamp(min=0.125))
+    if kind == "primary":
+        return [other], Th
+    opt = I.EuropeanOption(other, strike=PRICER_STRIKE, maturity=(Th - 1) * world.env["dt"])
+    opt.list(_dyadic_pricer, cost=1 / 64)
+    return [opt], Th
